@@ -214,6 +214,20 @@ func (p *Parent) runBatch(bin string, plan Plan, b int) {
 	p.AddDeviation(Deviation{Sig: "process-death:" + fatalLine(t2), Detail: "child process died executing this case (reproduced alone in a fresh child); output tail:\n" + t2, Batch: b, Index: idx})
 }
 
+// MergeBatch collects the deviation file and the summary a worker wrote for
+// batch b into the parent's work dir (for orchestrators that start workers themselves).
+func (p *Parent) MergeBatch(b int) bool {
+	p.collectDevFile(filepath.Join(p.WorkDir, fmt.Sprintf("b%d.dev.jsonl", b)))
+	if sb, err := os.ReadFile(filepath.Join(p.WorkDir, fmt.Sprintf("b%d.json", b))); err == nil {
+		var s Summary
+		if json.Unmarshal(sb, &s) == nil {
+			p.mergeSummary(&s, b)
+			return true
+		}
+	}
+	return false
+}
+
 func fatalLine(s string) string {
 	for _, l := range strings.Split(s, "\n") {
 		if strings.HasPrefix(l, "fatal error:") || strings.HasPrefix(l, "panic:") || strings.HasPrefix(l, "runtime:") || strings.Contains(l, "signal: killed") {
